@@ -92,6 +92,10 @@ def f_len(eng, s, args, kw):
         if f is not None:
             from .models import call_value
             return call_value(eng, BoundMeth(x, "__len__", f), [], {}, s)
+    if k is None and x.ty is None and eng.spec:
+        r = get_ref(x.t)
+        is_l = z3.Or(TYP(r) == class_id("list"), TYP(r) == class_id("tuple"))
+        return [(sv_int(z3.If(is_str(x.t), z3.Length(get_s(x.t)), z3.If(is_l, s.heap.llen(r), s.heap.dlen(r)))), s)]
     if k is None and x.ty is None:
         t = eng.static_ty(s, x, ["list", "tuple", "dict", "str", "set"])
         if t is None:
